@@ -53,6 +53,12 @@ type P9 struct {
 	U unsafe.Pointer
 }
 
+// PA is a large component (more than a page) whose only reference sits at its very end.
+type PA struct {
+	Pad [640]uint64
+	P   *Obj
+}
+
 // Plain components used to move rows between tables.
 type V1 struct{ X uint64 }
 type V2 struct{ A, B uint32 }
